@@ -9,6 +9,7 @@ import (
 	"fmt"
 	"io"
 	"math/rand"
+	"runtime"
 	"strings"
 	"time"
 
@@ -86,11 +87,31 @@ type listenWorld struct {
 	base map[string]stall.Parked
 	from jid.JID
 	dead bool
+	gids map[chan taken]string // goroutine running each pending call
+}
+
+func goroutineID() string {
+	buf := make([]byte, 64)
+	buf = buf[:runtime.Stack(buf, false)]
+	if f := strings.Fields(string(buf)); len(f) >= 2 {
+		return f[1] // "goroutine 123 [running]:"
+	}
+	return ""
+}
+
+func (lw *listenWorld) remember(ch chan taken, gid chan string) {
+	if lw.gids == nil {
+		lw.gids = map[chan taken]string{}
+	}
+	lw.gids[ch] = <-gid
 }
 
 func (lw *listenWorld) accept(ln *ibb.Listener) chan taken {
 	ch := make(chan taken, 1)
+	gid := make(chan string, 1)
+	defer lw.remember(ch, gid)
 	go func() {
+		gid <- goroutineID()
 		var t taken
 		lw.c.Guard("ibb.Listener.Accept", func() {
 			nc, err := ln.Accept()
@@ -106,7 +127,10 @@ func (lw *listenWorld) accept(ln *ibb.Listener) chan taken {
 
 func (lw *listenWorld) expect(ctx context.Context, sid string) chan taken {
 	ch := make(chan taken, 1)
+	gid := make(chan string, 1)
+	defer lw.remember(ch, gid)
 	go func() {
+		gid <- goroutineID()
 		var t taken
 		lw.c.Guard("ibb.Listener.Expect", func() {
 			nc, err := lw.ln.Expect(ctx, lw.from, sid)
@@ -203,6 +227,26 @@ func (lw *listenWorld) reply(id, what string, entitled bool) *xmltree.Node {
 }
 
 func (lw *listenWorld) take(ch chan taken, what string) (taken, bool) {
+	select {
+	case t := <-ch:
+		return t, true
+	case <-time.After(grace):
+	}
+	// Every call awaited here has been given what it was waiting for (its
+	// stream was accepted on the wire, its listener closed, its context ended,
+	// its Expect replaced): a call that is still parked will stay so.
+	select {
+	case t := <-ch:
+		return t, true
+	default:
+	}
+	for _, pk := range stall.Check(func(fn string) bool { return strings.HasPrefix(fn, "ibb.(*Listener).") }, 0) {
+		if pk.ID == lw.gids[ch] && !lw.dead {
+			lw.c.Violate(stall.Key(pk), "%s does not return although what it waits for has happened:\n%s", what, pk.Stack)
+			lw.dead = true
+			return taken{}, false
+		}
+	}
 	select {
 	case t := <-ch:
 		return t, true
